@@ -25,7 +25,15 @@ LEVEL_TEXT = ("Lean 4 theorems about the executable solver models: the matrix Q 
               "field, for all sizes and ALL index pairs, under the property's hypothesis that every tested pivot is "
               "exactly 0 or at least the tolerance. Models tied to the C++ by differential correspondence on every "
               "index pair (Float with tolerance; exact rationals for the square-root-free regular envelope kernel) "
-              "plus an exact rational oracle (reference generalised inverse) on the implementation's answers.")
+              "plus an exact rational oracle (reference generalised inverse) on the implementation's answers. Rounds 6-9: every "
+              "third resolving case is asked of a REUSED object (earlier problem of the same or another size, min_x / "
+              "set_algorithm changes, repeated row queries; harness/c03_history.cpp) and Props/C03/History.lean proves, as "
+              "corollaries of C04's state machines, that the cofactors after ANY history are those of a fresh object on the "
+              "current problem (C03_cofactors_history_independent, _full, _svd, _adj, C03_envelope_cache_invariant; "
+              "C03_history_cofactors_are_ginverse: one g-inverse of the current N, envelope only); through both facades the "
+              "solver premise is ONE input-side hypothesis InputGap on (A, P, S) for all four algorithms "
+              "(C03_net_cofactors_gap, C03_adj_cofactors_gap), applied over R to a correlated network "
+              "(C03_net_cofactors_witness); the XML covariance matrix is tied to the executed models (C03_net_xml_cov).")
 LEVEL_NOTE = ("Theorems are about exact arithmetic; IEEE rounding is not proved. For the envelope solver both the regular case "
               "(Q = N^-1) and the singular case (Q = T Q0 T' with the S-projector of the configured regularisation; "
               "q_bb = A Q A' for every g-inverse, projector, diagonal in [0,1], redundancy sum m - n + defect) are proved "
@@ -38,11 +46,26 @@ LEVEL_NOTE = ("Theorems are about exact arithmetic; IEEE rounding is not proved.
               "statements through both facades (Adj: C03_adj_cofactors; LocalNetwork: C03_net_cofactors, q_bb = hat matrix of "
               "the ONE homogenised system for all four algorithms, C03_net_homogenisations_agree). svd: no factorisation "
               "certificate any more (Props/C03/SvdDecompose.lean: for the factors Svd.decompose returns, with unambiguous "
-              "singular values; C03_svd_solve_decompose about svdSolve). Hypotheses that stay: each algorithm's 'every tested "
-              "quantity is exactly 0 or above its tolerance' on its own trace, convergence of the svd QR iteration "
-              "(= Svd.decompose returns), IEEE rounding; the absolute tolerances of the real kernels under extreme weights are "
-              "known findings (F22, C09-F2, C10-TINY). The XML covariance band is checked at network level by C12 "
-              "(C03_xml_cov_is_m0sq_Q).")
+              "singular values; C03_svd_solve_decompose about svdSolve). Hypotheses that stay: per solver model each "
+              "algorithm's 'every tested quantity is exactly 0 or above its tolerance' on its own trace; through Adj and "
+              "LocalNetwork this follows from the one input-side hypothesis InputGap alg A P S tau (thresholds + RankGap for "
+              "envelope/cholesky/gso, SingGap for svd: Props/C03/InputGap.lean; the definitions of SolverHyp are unchanged); "
+              "convergence of the svd QR iteration (= Svd.decompose returns), IEEE rounding; the absolute tolerances of the "
+              "real kernels under extreme weights are known findings (F22, C09-F2, C10-TINY; all status known). History "
+              "theorems: hypotheses are C04's (valid history, the configured list resolves every system handed over); the "
+              "composition with the g-inverse theorem exists for the envelope only. XML covariance band at network level: "
+              "C03_net_xml_cov (Props/C03/XmlCov.lean) - for (np,u) returned by the model of project_equations(), the answer a "
+              "of netSolve and the value of m_0(), the number streamed at (i,j) of <cov-mat> by the REGENERATED covariance site "
+              "is m0^2 * a.qxx(ind[i],ind[j]), written on the clipped band and read back, ind = <original-index> from the points "
+              "and orientations of u (no free Q, m0, points; C03_xml_cov_is_m0sq_Q of Props/C12.lean is the form with free "
+              "Q); composed with the g-inverse theorem in C03_net_xml_cov_ginverse, whose index range 1 <= ind[i] <= n is proved "
+              "in its upper half only (C03_net_xml_ind_range_partial). Clause 'all index pairs' for the packed envelope: "
+              "C16_envsolve_packed (full: hypotheses square-root law, RowsOK, HoldsProblem; well-formedness of Hom.run's sparse "
+              "output and the ordering computed from it are conclusions) identifies envSolve's factor with the packed envelope of "
+              "Homogenization::run's output and the packed inverse with the dense recursion INSIDE the profile; outside the "
+              "profile the separate C03_env_sparse_inverse_eq_full_ldl, not chained into one statement. "
+              "Comparison: cofactors entrywise at rtol = atol = 1e-9; entries that miss it on a matrix of large dynamic range are "
+              "judged normwise against the exact rational Q (exact_q_verdict, capped at 0.1 % of the cases, see TRUSTED).")
 TECHNIQUE = "Lean 4 proof (ordered-field algebra, induction over the factorisation loops) + model/implementation correspondence"
 MODELLED = ["IEEE rounding (proofs over exact ordered fields)",
             "envelope profile storage (drv_ls runs the dense zEntry recursion; C03_env_sparse_inverse_eq_full proves it equals "
@@ -50,6 +73,16 @@ MODELLED = ["IEEE rounding (proofs over exact ordered fields)",
             "SVD::svd: convergence of the QR iteration (= Svd.decompose returns) and negligibility under rounding; the "
             "factorisation it returns is proved (Svd.decompose_cert)"]
 ASSUMPTIONS = ["rank numerically unambiguous: generator keeps exact small-integer/dyadic data so every pivot is 0 or O(1)"]
+TRUSTED = ["tools/lib/gen_ls.py exact rational reference (generalised inverse, kernel, 'resolves' decision): the property oracle, and "
+           "the judge of exact_q_verdict (this file; the cofactor analogue of tools/lib/exact_verdict.py): a q_xx entry (q0_xx at "
+           "defect 0) that misses the entrywise 1e-9 comparison is accepted only if tol = min(eps*kappa, 1e-7)*(1 + max|Q|), "
+           "kappa = |N|_inf |Q|_inf exact, exceeds what the comparator asked at that entry AND both whole matrices are within tol of "
+           "the exact Q; at most 60 per run, INCONCLUSIVE above max(12, 0.1 %) of the cases; misses in defect, q_bb, q0_xx of a "
+           "singular system stay disagreements",
+           "harness/c03_history.cpp (adj_harness.cpp + reset_new / select / fresh: several problems per case on one object)",
+           "hand valuation covEnv of Lemmas/C03XmlCov.lean (accessor atoms net.m_0(), net.qxx(ind[i],ind[j]) of the regenerated "
+           "covariance site -> NetAnswer.m0, NetAnswer.qxx) used by C03_net_xml_cov",
+           "corpus/C03/*.json (two thorough-run-3 cases) appended to every run"]
 
 ALGS = ["env", "chol", "gso", "svd"]
 # quick-tier minimum of the case mix (cases = problem x subset x algorithm x entry); not met -> inconclusive
